@@ -1,7 +1,7 @@
 #!/usr/bin/env python3
 """Import and confirm a seeded change produced in a scratch worktree.
 
-usage: seedimport.py <worktree> <n> <property id>
+usage: seedimport.py <worktree> <n> <property id> [<destination index>]
 
 Reads <worktree>/SEED/<n>/{patch.diff,demo_test.go,meta.json}, and confirms in
 that scratch worktree (never in /repo):
@@ -24,10 +24,11 @@ def sh(cmd, cwd, timeout=900):
 
 def main():
     wt, n, pid = sys.argv[1], sys.argv[2], sys.argv[3]
+    dn = sys.argv[4] if len(sys.argv) > 4 else n
     src = os.path.join(wt, "SEED", n)
     meta = json.load(open(os.path.join(src, "meta.json")))
     cmd = meta.get("demo_cmd", "")
-    m = re.search(r"cp SEED/%s/demo_test.go (\S+)" % n, cmd)
+    m = re.search(r"cp (?:\S*/)?SEED/%s/demo_test.go (\S+)" % n, cmd)
     dest = m.group(1) if m else "SEED/%s/demo_test.go" % n
     m = re.search(r"-tags[ =](\S+)", cmd)
     tags = m.group(1) if m else ""
@@ -73,7 +74,7 @@ def main():
     if rc2 != 0:
         print(out2[-2000:])
         sys.exit("demonstration does not pass on the clean tree")
-    dst = os.path.join("/verif/seeded", pid, n)
+    dst = os.path.join("/verif/seeded", pid, dn)
     os.makedirs(dst, exist_ok=True)
     shutil.copy(os.path.join(src, "patch.diff"), dst)
     shutil.copy(os.path.join(src, "demo_test.go"), dst)
